@@ -238,7 +238,7 @@ Definition receive_headers (cfg : config) (hs : list hitem) (end_stream : bool) 
     | [], _ => crash IndexError
     | _, [] => crash IndexError
     | e0 :: _, _ =>
-        initialize_content_length hs ;;;
+        (if info then ret tt else initialize_content_length hs) ;;;     (* a 1xx block says nothing about the final message *)
         (if hd_is SE_TrailersReceived evs && negb end_stream then lift_res perr else ret tt) ;;;
         f <- lift_res (build_flags evs) ;;
         h <- lift_res (process_received_headers cfg f hs) ;;
